@@ -112,7 +112,7 @@ def case_two_no_sub_cycle_livelock():
         "p.add_propagator(([0,1,2,3],ALG_NO_SUB_CYCLE,[])); p.add_propagator(([0,1,2,3],ALG_NO_SUB_CYCLE,[]))\n"
         "print(len(BacktrackSolver(p).find_all()))\n"
     )
-    rc, out = _solve_sub(code, timeout=150)
+    rc, out = _solve_sub(code, timeout=60)
     return rc == 0 and out == "6", f"circuit(4) with no_sub_cycle posted twice -> {out}"
 
 
@@ -124,7 +124,7 @@ def case_duplicate_shared_domain():
         "p=Problem([(0,3)],[0,0,0],[0,-2,-1]); p.add_propagator(([0,2],ALG_MAX_LEQ,[]))\n"
         "print([list(map(int,s)) for s in BacktrackSolver(p).find_all()])\n"
     )
-    rc, out = _solve_sub(code, timeout=150)
+    rc, out = _solve_sub(code, timeout=60)
     return rc == 0 and json.loads(out) == [], f"x0<=x0-1 (one shared domain twice in max_leq) -> {out}"
 
 
@@ -141,7 +141,7 @@ def case_split_low_ground():
         "    r.append(len(BacktrackSolver(p,dom_heuristic_idx=h).find_all()))\n"
         "print(r)\n"
     )
-    rc, out = _solve_sub(code, timeout=150)
+    rc, out = _solve_sub(code, timeout=60)
     # brute force: a successor function on 3 vertices without a cycle shorter than 3 is a 3-cycle:
     # none with values in {0,1}, two with values in {0,1,2}
     # and the propagator itself accepts four ground tuples of {0,1,2}^3 (it is decisive on permutations only)
@@ -161,7 +161,7 @@ def case_optimize_unwatched_objective():
         "p=Problem([(0,3),(0,3)])\n"
         "s=BacktrackSolver(p).maximize(0); print(None if s is None else int(s[0]))\n"
     )
-    rc, out = _solve_sub(code, timeout=150)
+    rc, out = _solve_sub(code, timeout=60)
     return rc == 0 and out == "3", f"minimize/maximize a variable no constraint watches -> {out}"
 
 
@@ -175,7 +175,7 @@ def case_split_more_parts_than_values():
         "q=QueensProblem(4); parts=q.split(2,5); m=sum(len(BacktrackSolver(x).find_all()) for x in parts)\n"
         "print(n,m)\n"
     )
-    rc, out = _solve_sub(code, timeout=150)
+    rc, out = _solve_sub(code, timeout=60)
     return rc == 0 and out == "6 2", f"split(5) of a 3-value domain; QueensProblem(4).split(2, var 5) -> {out}"
 
 
@@ -188,7 +188,7 @@ def case_max_regret_ties():
         "s=BacktrackSolver(p,var_heuristic_idx=VAR_HEURISTIC_MAX_REGRET,var_heuristic_params=[[1,1],[1,1]])\n"
         "print(len(s.find_all()))\n"
     )
-    rc, out = _solve_sub(code, timeout=150, env={"NUMBA_DISABLE_JIT": "1"})
+    rc, out = _solve_sub(code, timeout=60, env={"NUMBA_DISABLE_JIT": "1"})
     return rc == 0 and out == "4", f"max_regret with tied costs (interpreted) -> {out}"
 
 
@@ -206,7 +206,7 @@ def case_stack_pointer_wrap():
         "    s=next(iter(BacktrackSolver(p,stack_max_height=512).solve())); print(int(sum(s)))\n"
         "except (ValueError, IndexError, OverflowError) as e: print('raised')\n"
     )
-    rc, out = _solve_sub(code, timeout=200)
+    rc, out = _solve_sub(code, timeout=120)
     ok = rc == 0 and out in ("0", "raised")
     code2 = (
         "from nucs.problems.problem import Problem\n"
@@ -216,7 +216,7 @@ def case_stack_pointer_wrap():
         "    n=len(BacktrackSolver(p,stack_max_height=6).find_all()); print(n)\n"
         "except (ValueError, IndexError, OverflowError) as e: print('raised')\n"
     )
-    rc2, out2 = _solve_sub(code2, timeout=200)
+    rc2, out2 = _solve_sub(code2, timeout=120)
     ok2 = rc2 == 0 and out2 in ("4096", "raised")
     return ok and ok2, f"300 booleans, height 512 -> {out}; depth 12 with height 6 -> {out2} (rc {rc2})"
 
@@ -256,7 +256,7 @@ def case_worker_death():
         "except Exception as e: print('raised')\n"
         "os._exit(0)\n"
     )
-    rc, out = _solve_sub(code, timeout=200, env={"NUMBA_DISABLE_JIT": "1"})
+    rc, out = _solve_sub(code, timeout=120, env={"NUMBA_DISABLE_JIT": "1"})
     return rc == 0 and out in ("raised", "returned 4"), f"worker exits before its marker -> {out}"
 
 
